@@ -68,19 +68,33 @@ Proof.
   - destruct Hin as [->|Hin]; [congruence|apply (IH Hnd' H x Hin)].
 Qed.
 
+(* never unfold mask_keys by conversion: comparing two stuck filters over the 64
+   positions is exponential for the kernel; rewrite with this equation instead *)
+Lemma mask_keys_eq : forall m, mask_keys m = filter (mask_bit m) bit_positions.
+Proof. intros m. reflexivity. Qed.
+
+Lemma bit_positions_nodup : NoDup bit_positions.
+Proof. unfold bit_positions. apply seq_NoDup. Qed.
+
+Lemma bit_positions_in : forall n, n < 64 -> In (N.to_nat n) bit_positions.
+Proof. intros n H. unfold bit_positions. apply in_seq. lia. Qed.
+
+Lemma testbit_high : forall m n, m < two64 -> 64 <= n -> N.testbit m n = false.
+Proof.
+  intros m n Hm Hn. destruct (N.eq_dec m 0) as [->|Hz]; [apply N.bits_0|].
+  apply N.bits_above_log2. apply N.lt_le_trans with 64; [|exact Hn].
+  apply N.log2_lt_pow2; [lia|exact Hm].
+Qed.
+
 Lemma mask_keys_inj : forall m1 m2, m1 < two64 -> m2 < two64 ->
   mask_keys m1 = mask_keys m2 -> m1 = m2.
 Proof.
-  intros m1 m2 H1 H2 H. apply N.bits_inj. intros n.
-  assert (Hhigh : forall m, m < two64 -> 64 <= n -> N.testbit m n = false).
-  { intros m Hm Hn. destruct (N.eq_dec m 0) as [->|Hz]; [apply N.bits_0|].
-    apply N.bits_above_log2. apply N.lt_le_trans with 64; [|exact Hn].
-    apply N.log2_lt_pow2; [lia|exact Hm]. }
+  intros m1 m2 H1 H2 H. rewrite !mask_keys_eq in H. apply N.bits_inj. intros n.
   destruct (N.lt_ge_cases n 64) as [Hlt|Hge].
-  - unfold mask_keys in H.
-    pose proof (filter_eq_pointwise _ _ (seq 0 64) (seq_NoDup 64 0) H (N.to_nat n)) as Hp.
-    cbn beta in Hp. rewrite N2Nat.id in Hp. apply Hp. apply in_seq. lia.
-  - rewrite (Hhigh m1 H1 Hge), (Hhigh m2 H2 Hge). reflexivity.
+  - pose proof (filter_eq_pointwise (mask_bit m1) (mask_bit m2) bit_positions bit_positions_nodup H
+                  (N.to_nat n) (bit_positions_in n Hlt)) as Hp.
+    unfold mask_bit in Hp. rewrite N2Nat.id in Hp. exact Hp.
+  - rewrite (testbit_high m1 n H1 Hge), (testbit_high m2 n H2 Hge). reflexivity.
 Qed.
 
 Lemma mask_keys_zero : mask_keys 0 = [].
@@ -105,18 +119,23 @@ Proof.
   clear H. Z.div_mod_to_equations. lia.
 Qed.
 
+Lemma app_two_inj : forall {A} (x y : list A) a b c d,
+  x ++ [a; b] = y ++ [c; d] -> x = y /\ a = c /\ b = d.
+Proof.
+  intros A x y a b c d H.
+  assert (H' : (x ++ [a]) ++ [b] = (y ++ [c]) ++ [d]) by (rewrite <- !app_assoc; exact H).
+  apply app_inj_tail in H'. destruct H' as [H' Hb].
+  apply app_inj_tail in H'. destruct H' as [Hx Ha]. auto.
+Qed.
+
 Lemma memo_key_inj : forall h1 s1 p1 t1 m1 h2 s2 p2 t2 m2,
   int_range t1 -> int_range t2 ->
   memo_key h1 s1 p1 t1 m1 = memo_key h2 s2 p2 t2 m2 ->
   h1 = h2 /\ s1 = s2 /\ p1 = p2 /\ t1 = t2 /\ m1 = m2.
 Proof.
   intros h1 s1 p1 t1 m1 h2 s2 p2 t2 m2 R1 R2 H. unfold memo_key in H.
-  inversion H as [[Hh Hs Hrest]].
-  change (p1 ++ [Z.to_N (t1 mod 2 ^ 64); m1]) with (p1 ++ [Z.to_N (t1 mod 2 ^ 64)] ++ [m1]) in Hrest.
-  change (p2 ++ [Z.to_N (t2 mod 2 ^ 64); m2]) with (p2 ++ [Z.to_N (t2 mod 2 ^ 64)] ++ [m2]) in Hrest.
-  rewrite !app_assoc in Hrest.
-  apply app_inj_tail in Hrest. destruct Hrest as [Hrest Hm].
-  apply app_inj_tail in Hrest. destruct Hrest as [Hp Ht].
+  injection H as Hh Hs Hrest.
+  apply app_two_inj in Hrest. destruct Hrest as (Hp & Ht & Hm).
   repeat split; auto. apply thr_enc_inj; assumption.
 Qed.
 
@@ -207,13 +226,11 @@ Section FinalityProofs.
       + apply IH in H. cbn [length]. lia.
       + destruct (threshold_step nd ts final c) as [d|] eqn:E; [|discriminate].
         apply IH in H. assert (Hd : d <= 1).
-        { unfold threshold_step in E. destruct (3 * minute_ns <? ref_window); [discriminate|].
-          destruct (c_state c).
-          - destruct (accept_period_min <? hour_ns); [discriminate|]. inversion E.
-            destruct (negb final && (u64 (c_ts c + (accept_period_min - ref_window * 3)) <? ts)); lia.
-          - inversion E. destruct (is_genesis nd (c_id c) || (u64 (c_ts c + ref_window) <? ts)); lia.
-          - inversion E; lia.
-          - inversion E; lia. }
+        { unfold threshold_step in E. cbv zeta in E.
+          destruct (3 * minute_ns <? ref_window); [discriminate|].
+          destruct (c_state c); try (destruct (accept_period_min <? hour_ns); [discriminate|]);
+            injection E as <-;
+            try match goal with |- (if ?b then 1 else 0) <= 1 => destruct b end; lia. }
         cbn [length]. lia.
   Qed.
 
@@ -377,3 +394,150 @@ Section FinalityProofs.
     apply (select_inj_idx _ _ _ sel Hnd S2 S1).
   Qed.
 End FinalityProofs.
+
+(* ---- the two side conditions of the memo theorem follow from the records ---------------- *)
+Section RecordInvariants.
+  Variable P : nrec -> Prop.
+
+  Lemma Forall_sort_recs : forall l, Forall P l -> Forall P (sort_recs l).
+  Proof.
+    intros l H. unfold sort_recs.
+    assert (G : forall l acc, Forall P l -> Forall P acc ->
+                Forall P (fold_left (fun acc r => insert_rec r acc) l acc)).
+    { induction l0 as [|r l0 IH]; intros acc Hl Ha; cbn [fold_left]; [exact Ha|].
+      inversion Hl; subst. apply IH; [assumption|]. apply Forall_insert; assumption. }
+    apply G; [exact H|constructor].
+  Qed.
+
+  Lemma Forall_take_before : forall th l, Forall P l -> Forall P (take_before th l).
+  Proof.
+    intros th l H. induction H as [|x l Hx Hl IH]; cbn [take_before]; [constructor|].
+    destruct (th <=? r_ts x); [constructor|constructor; assumption].
+  Qed.
+
+  Lemma Forall_map_set : forall r m, P r -> Forall P m -> Forall P (map_set r m).
+  Proof.
+    intros r m Hr Hm. induction Hm as [|x m Hx Hm IH]; cbn [map_set]; [repeat constructor; exact Hr|].
+    destruct (r_id x =? r_id r); constructor; assumption.
+  Qed.
+
+  Lemma Forall_latest : forall l, Forall P l -> Forall P (latest_by_id l).
+  Proof.
+    intros l H. unfold latest_by_id.
+    assert (G : forall l acc, Forall P l -> Forall P acc ->
+                Forall P (fold_left (fun m r => map_set r m) l acc)).
+    { induction l0 as [|r l0 IH]; intros acc Hl Ha; cbn [fold_left]; [exact Ha|].
+      inversion Hl; subst. apply IH; [assumption|]. apply Forall_map_set; assumption. }
+    apply G; [exact H|constructor].
+  Qed.
+
+  Lemma map_c_rec_assign : forall l i, map c_rec (assign_index i l) = l.
+  Proof. induction l as [|r l IH]; intros i; cbn [assign_index map c_rec]; [reflexivity|]. rewrite IH. reflexivity. Qed.
+
+  Lemma Forall_nsws : forall th ao all, Forall P all ->
+    Forall P (map c_rec (node_sequence_without_state th ao all)).
+  Proof.
+    intros th ao all H. unfold node_sequence_without_state. rewrite map_c_rec_assign.
+    apply Forall_sort_recs. unfold accepted_filter.
+    pose proof (Forall_latest _ (Forall_take_before th all H)) as Hl.
+    destruct ao; [|exact Hl]. apply Forall_forall. intros x Hx. apply filter_In in Hx.
+    destruct Hx as [Hx _]. exact (proj1 (Forall_forall _ _) Hl x Hx).
+  Qed.
+
+  Lemma Forall_lookup_seq : forall th (seqs : list (N * list cnode)),
+    Forall (fun e => Forall P (map c_rec (snd e))) seqs -> Forall P (map c_rec (lookup_seq th seqs)).
+  Proof.
+    intros th seqs H. induction H as [|[ts l] seqs Hx Hs IH]; cbn [lookup_seq]; [constructor|].
+    destruct (ts <? th); [exact Hx|exact IH].
+  Qed.
+
+  Lemma Forall_nodes_list : forall recs genesis epoch mainnet th ao, Forall P recs ->
+    Forall P (map c_rec (nodes_list (load_node recs genesis epoch mainnet) th ao)).
+  Proof.
+    intros recs genesis epoch mainnet th ao H. unfold nodes_list, load_node. cbn [n_aseqs n_seqs].
+    pose proof (Forall_sort_recs recs H) as Hs.
+    assert (G : forall ao, Forall (fun e => Forall P (map c_rec (snd e)))
+                                 (rev (build_sequences ao (sort_recs recs)))).
+    { intros ao'. apply Forall_rev. unfold build_sequences. apply Forall_forall. intros e He.
+      apply in_map_iff in He. destruct He as (n & <- & _). cbn [snd]. apply Forall_nsws. exact Hs. }
+    destruct ao; apply Forall_lookup_seq; apply G.
+  Qed.
+End RecordInvariants.
+
+Lemma ids_from_keys_of_records : forall (id_of : N -> N) recs genesis epoch mainnet ch,
+  Forall (fun r => r_id r = id_of (r_key r)) recs ->
+  (forall info, ch_info ch = Some info -> r_id info = id_of (r_key info)) ->
+  ids_from_keys id_of (load_node recs genesis epoch mainnet) ch.
+Proof.
+  intros id_of recs genesis epoch mainnet ch Hr Hi round ts.
+  unfold consensus_ids, consensus_keys. rewrite map_map.
+  apply map_ext_in. intros r Hin. unfold consensus_nodes in Hin.
+  set (nd := load_node recs genesis epoch mainnet) in *.
+  assert (Hps : forall r, In r (map c_rec (filter (fun c => negb (is_removing (predicted_removal nd ts) c) && consensus_ready nd c ts)
+                                                   (nodes_list nd ts false))) -> r_id r = id_of (r_key r)).
+  { intros r0 H0. apply in_map_iff in H0. destruct H0 as (c & <- & Hc). apply filter_In in Hc. destruct Hc as [Hc _].
+    pose proof (Forall_nodes_list _ recs genesis epoch mainnet ts false Hr) as HF.
+    apply (proj1 (Forall_forall _ _) HF). apply in_map. exact Hc. }
+  destruct (ch_info ch) as [info|] eqn:Ei; [|apply Hps; exact Hin].
+  destruct (is_pledging_chain ch && (round =? 0)); [|apply Hps; exact Hin].
+  apply in_app_or in Hin. destruct Hin as [Hin|[<-|[]]]; [apply Hps; exact Hin|apply Hi; reflexivity].
+Qed.
+
+(* lengths: every view is at most as long as the record list *)
+Lemma length_insert_rec : forall r l, length (insert_rec r l) = S (length l).
+Proof. intros r l. induction l as [|x l IH]; cbn [insert_rec]; [reflexivity|]. destruct (rec_lt r x); cbn [length]; [reflexivity|rewrite IH; reflexivity]. Qed.
+
+Lemma length_sort_recs : forall l, length (sort_recs l) = length l.
+Proof.
+  intros l. unfold sort_recs.
+  assert (G : forall l acc, length (fold_left (fun acc r => insert_rec r acc) l acc) = (length l + length acc)%nat).
+  { induction l0 as [|r l0 IH]; intros acc; cbn [fold_left length]; [reflexivity|]. rewrite IH, length_insert_rec. lia. }
+  rewrite G. cbn. lia.
+Qed.
+
+Lemma length_take_before : forall th l, (length (take_before th l) <= length l)%nat.
+Proof. intros th l. induction l as [|x l IH]; cbn [take_before]; [lia|]. destruct (th <=? r_ts x); cbn [length]; lia. Qed.
+
+Lemma length_map_set : forall r m, (length (map_set r m) <= S (length m))%nat.
+Proof. intros r m. induction m as [|x m IH]; cbn [map_set]; [cbn; lia|]. destruct (r_id x =? r_id r); cbn [length]; lia. Qed.
+
+Lemma length_latest : forall l, (length (latest_by_id l) <= length l)%nat.
+Proof.
+  intros l. unfold latest_by_id.
+  assert (G : forall l acc, (length (fold_left (fun m r => map_set r m) l acc) <= length l + length acc)%nat).
+  { induction l0 as [|r l0 IH]; intros acc; cbn [fold_left length]; [lia|].
+    pose proof (IH (map_set r acc)). pose proof (length_map_set r acc). lia. }
+  pose proof (G l []). cbn in *. lia.
+Qed.
+
+Lemma length_filter_le : forall {A} (f : A -> bool) l, (length (filter f l) <= length l)%nat.
+Proof. intros A f l. induction l as [|x l IH]; cbn [filter length]; [lia|]. destruct (f x); cbn [length]; lia. Qed.
+
+Lemma length_assign_index : forall l i, length (assign_index i l) = length l.
+Proof. induction l as [|r l IH]; intros i; cbn [assign_index length]; [reflexivity|]. rewrite IH. reflexivity. Qed.
+
+Lemma length_nsws : forall th ao all, (length (node_sequence_without_state th ao all) <= length all)%nat.
+Proof.
+  intros th ao all. unfold node_sequence_without_state. rewrite length_assign_index, length_sort_recs.
+  pose proof (length_latest (take_before th all)). pose proof (length_take_before th all).
+  unfold accepted_filter. destruct ao; [|lia].
+  pose proof (length_filter_le (fun r => nstate_eqb (r_state r) Accepted) (latest_by_id (take_before th all))). lia.
+Qed.
+
+Lemma length_lookup_seq : forall th n (seqs : list (N * list cnode)),
+  Forall (fun e => (length (snd e) <= n)%nat) seqs -> (length (lookup_seq th seqs) <= n)%nat.
+Proof.
+  intros th n seqs H. induction H as [|[ts l] seqs Hx Hs IH]; cbn [lookup_seq]; [cbn; lia|].
+  destruct (ts <? th); [exact Hx|exact IH].
+Qed.
+
+Lemma small_node_of_records : forall recs genesis epoch mainnet,
+  N.of_nat (length recs) < 2 ^ 62 -> small_node (load_node recs genesis epoch mainnet).
+Proof.
+  intros recs genesis epoch mainnet H ts. unfold nodes_list, load_node. cbn [n_seqs].
+  assert (G : (length (lookup_seq ts (rev (build_sequences false (sort_recs recs)))) <= length recs)%nat).
+  { apply length_lookup_seq. apply Forall_rev. unfold build_sequences. apply Forall_forall. intros e He.
+    apply in_map_iff in He. destruct He as (n & <- & _). cbn [snd].
+    pose proof (length_nsws (u64 (r_ts n + 1)) false (sort_recs recs)). rewrite length_sort_recs in *. lia. }
+  lia.
+Qed.
